@@ -15,6 +15,7 @@ import (
 	"testing/synctest"
 	"time"
 
+	"github.com/tikv/client-go/v2/internal/locate"
 	"github.com/tikv/client-go/v2/oracle"
 	"github.com/tikv/client-go/v2/verifsim/simkit"
 )
@@ -133,10 +134,13 @@ func (Engine) Prepare(cfg simkit.RunConfig, scenario any) {
 		cfg.Seed = sd
 	}
 	rand.Seed(int64(cfg.Seed)) // back-off jitter etc. of the code under test (global math/rand)
+	// the tie-break among equally good replicas of a replica read: one choice per run (see the shim's comment)
+	pick := simkit.NewHasher(cfg.Seed, "replica-pick").U64("k")
+	locate.VerifSetRandIntn(func(n int) int { return int(pick % uint64(n)) })
 }
 
 // Cleanup implements simkit.Preparer.
-func (Engine) Cleanup(cfg simkit.RunConfig, scenario any) {}
+func (Engine) Cleanup(cfg simkit.RunConfig, scenario any) { locate.VerifSetRandIntn(nil) }
 
 // Execute implements simkit.Engine.
 func (Engine) Execute(t *testing.T, cfg simkit.RunConfig, scenario any) *simkit.RunResult {
